@@ -426,7 +426,10 @@ class Expr:
             value, like = self.operands
             r = (
                 "z_" + self.kind,  # prefix `z_` ensures that constants are sorted as largest kinds
-                value.key if isinstance(value, Expr) else (value, type(value).__name__),
+                # repr distinguishes 0.0 from -0.0, which compare equal,
+                # identifies nan values, which do not, and keeps keys of
+                # constants of different types comparable
+                value.key if isinstance(value, Expr) else (type(value).__name__, repr(value)),
                 like.key,
             )
         else:
